@@ -31,7 +31,7 @@ pub struct Prog {
     pub overrides: bool,
 }
 
-pub const F_SHAPES: [(&str, usize); 7] = [
+pub const F_SHAPES: [(&str, usize); 10] = [
     ("", 0),
     (" -> @location(0) vec4<f32>", 1),
     (" -> @location(2) vec4<f32>", 3),
@@ -39,8 +39,11 @@ pub const F_SHAPES: [(&str, usize); 7] = [
     (" -> FOutMixed", 2),
     (" -> FOutSparse", 4),
     (" -> FOutBuiltins", 0),
+    (" -> FOutDescending", 3),
+    (" -> FOutSwapped", 2),
+    (" -> FOutSingleHigh", 6),
 ];
-const F_TYPES: &str = "struct FOutMixed { @location(0) a: vec4<f32>, @builtin(frag_depth) d: f32, @location(1) b: vec4<f32> };\nstruct FOutSparse { @location(1) a: vec4<f32>, @location(3) b: vec4<f32> };\nstruct FOutBuiltins { @builtin(frag_depth) d: f32, @builtin(sample_mask) m: u32 };\n";
+const F_TYPES: &str = "struct FOutMixed { @location(0) a: vec4<f32>, @builtin(frag_depth) d: f32, @location(1) b: vec4<f32> };\nstruct FOutSparse { @location(1) a: vec4<f32>, @location(3) b: vec4<f32> };\nstruct FOutBuiltins { @builtin(frag_depth) d: f32, @builtin(sample_mask) m: u32 };\nstruct FOutDescending { @location(2) bright: vec4<f32>, @builtin(frag_depth) d: f32, @location(0) colour: vec4<f32> };\nstruct FOutSwapped { @location(1) a: vec4<f32>, @location(0) b: vec4<f32> };\nstruct FOutSingleHigh { @builtin(sample_mask) m: u32, @location(5) only: vec4<f32> };\n";
 const V_TYPES: &str = "struct VInA { @location(0) a: vec4<f32>, @builtin(vertex_index) vi: u32 };\nstruct VInB { @location(1) b: vec2<f32> };\n";
 pub const C_SIZES: [(&str, [u32; 3]); 5] = [("1", [1, 1, 1]), ("2, 3", [2, 3, 1]), ("4, 5, 6", [4, 5, 6]), ("WG_N", [7, 1, 1]), ("WG_N, 2", [7, 2, 1])];
 pub const V_PARAMS: [&[Option<&str>]; 5] = [&[], &[Some("VInA")], &[Some("VInA"), Some("VInB")], &[Some("VInB"), None], &[None, Some("VInB"), Some("VInA")]];
@@ -52,7 +55,10 @@ fn f_body(shape: usize) -> String {
         3 => "    return 0.5;\n".into(),
         4 => "    var o: FOutMixed;\n    return o;\n".into(),
         5 => "    var o: FOutSparse;\n    return o;\n".into(),
-        _ => "    var o: FOutBuiltins;\n    return o;\n".into(),
+        6 => "    var o: FOutBuiltins;\n    return o;\n".into(),
+        7 => "    var o: FOutDescending;\n    return o;\n".into(),
+        8 => "    var o: FOutSwapped;\n    return o;\n".into(),
+        _ => "    var o: FOutSingleHigh;\n    return o;\n".into(),
     }
 }
 
@@ -111,7 +117,7 @@ pub fn space(thorough: bool) -> Vec<Prog> {
         for rot in 0..if thorough { 7 } else { 4 } {
             for ov in [false, true] {
                 let vs = (0..k).map(|i| VEntry { name: V_NAMES[(i + rot) % 5].to_string(), params: V_PARAMS[(i + rot) % 5].to_vec() }).collect();
-                let fs = (0..k).map(|i| FEntry { name: F_NAMES[(i + rot) % 5].to_string(), shape: (i * 3 + rot) % 7 }).collect();
+                let fs = (0..k).map(|i| FEntry { name: F_NAMES[(i + rot) % 5].to_string(), shape: (i * 3 + rot) % F_SHAPES.len() }).collect();
                 let cs = (0..k).map(|i| CEntry { name: C_NAMES[(i + rot) % 5].to_string(), size: (i * 2 + rot) % 5 }).collect();
                 out.push(build(vs, fs, cs, ov, format!("multi|k={k}|rot={rot}|ov={}", ov as u8)));
             }
@@ -469,7 +475,7 @@ pub fn run(tier: &str) -> i32 {
     let mut index: BTreeMap<String, usize> = BTreeMap::new();
     for (i, (p, (t, _))) in progs.iter().zip(res.iter()).enumerate() {
         if let Some(t) = t {
-            if i % stride == 0 || p.key.starts_with("multi") || p.key.contains("|f=3|") || p.key.contains("|f=6|") {
+            if i % stride == 0 || p.key.starts_with("multi") || p.key.contains("|f=3|") || p.key.contains("|f=6|") || p.key.contains("|f=8|") || p.key.contains("|f=9|") || p.key.contains("|f=10|") {
                 let name = format!("c_{i:05}");
                 index.insert(name.clone(), i);
                 cases.push(ProbeCase { name, generated: t.clone(), probe_body: probe_code(p), probe_items: String::new(), files: vec![] });
@@ -504,6 +510,6 @@ pub fn run(tier: &str) -> i32 {
     rep.set("compiled_modules", json!(cases.len()));
     rep.sample(json!({"key": progs[10].key, "wgsl": progs[10].src}));
     rep.sample(json!({"key": progs[progs.len() - 1].key, "wgsl": progs[progs.len() - 1].src}));
-    rep.rule = "full product of {no vertex entry, 5 parameter shapes (none, 1 struct, 2 structs, struct+builtin, builtin+2 structs)} x {no fragment entry, 7 result shapes (none, @location(0), @location(2), builtin only, struct{loc0,builtin,loc1}, struct{loc1,loc3}, struct{builtins})} x {no compute entry, 5 workgroup sizes incl. constants} x overrides present/absent, names rotating over ascii / mixed case / single letter / non-ASCII / upper case; plus programs with 2..3 entries per stage. omodel on every state; a spread subset compiled against real wgpu and executed on the stand-in (every helper and pipeline constructor called, descriptors recorded). Colour-target count expected = highest written @location + 1.".into();
+    rep.rule = "full product of {no vertex entry, 5 parameter shapes (none, 1 struct, 2 structs, struct+builtin, builtin+2 structs)} x {no fragment entry, 10 result shapes (none, @location(0), @location(2), builtin only, struct{loc0,builtin,loc1}, struct{loc1,loc3}, struct{builtins}, struct{loc2,builtin,loc0}, struct{loc1,loc0}, struct{builtin,loc5})} x {no compute entry, 5 workgroup sizes incl. constants} x overrides present/absent, names rotating over ascii / mixed case / single letter / non-ASCII / upper case; plus programs with 2..3 entries per stage. omodel on every state; a spread subset compiled against real wgpu and executed on the stand-in (every helper and pipeline constructor called, descriptors recorded). Colour-target count expected = highest written @location + 1.".into();
     rep.finish()
 }
